@@ -162,7 +162,7 @@ def _worker(args: T.Tuple[str, int, int, int, int, T.List[str]]) -> T.Dict[str, 
             for j in range(lo, hi):
                 rnd = random.Random(sd * 999983 + j)
                 toks = lang_gen.build_program(rnd) if j % 3 else lang_gen.program(rnd, err_rate=0.0)
-                toks = lang_gen.decorate_nested(toks, rnd, rate=rnd.choice([0.0, 0.2, 0.5]))
+                toks = lang_gen.decorate_nested(toks, rnd, rate=rnd.choice([0.0, 0.2, 0.5]), anywhere=rnd.choice([0.0, 0.04, 0.2]))
                 text, _ = ld.render(toks, rnd, trivia=True, continuations=(j % 4 == 1))
                 if j % 11 == 0 and text.endswith('\n'):
                     text = text[:-1]
